@@ -1,12 +1,12 @@
 SPECIFICATION Spec
 CONSTANTS
-  MaxN = 64
-  MaxC = 17
-  MutN = 6
-  MutC = 3
-  ShortLen = 6
-  MaxEntries = 3
+  MaxN = 24
+  MaxC = 7
+  MutN = 3
+  MutC = 2
+  ShortLen = 4
+  MaxEntries = 2
   Registered = {"gzip", "x-lz4", "lz4"}
   Part = "mutant"
-  BigCases <- BigThorough
+  BigCases <- BigQuick
 INVARIANT Laws
